@@ -349,6 +349,10 @@ var docTexts = []string{
 	"select a from t1 where a < 1 and b > 2 and c <> 'x & y'",
 	"SELECT a & b FROM t1 WHERE c <= 'unterminated <&>",
 	"SELECT CASE WHEN a >= 1 THEN '<' ELSE '&' END FROM t1 GROUP BY a HAVING count(*) > 1",
+	// CRLF line endings: the line ending is not part of the line
+	"SELECT a,\r\n  b\r\nFROM t1\r\nWHERE c = 1",
+	"ab\r\ncd",
+	"SELECT 'é𝄞'\r\nFROM t2 WHERE\r\n",
 }
 
 var uris = []string{"file:///a.sql", "file:///b.sql", "untitled:1"}
@@ -363,7 +367,7 @@ func genMsg(rt *rapid.T, id int, open map[string]string, feat map[string]bool) M
 	case 2:
 		return Msg{Kind: "change_full", URI: uri, Version: rapid.IntRange(2, 50).Draw(rt, "ver"), Text: rapid.SampledFrom(docTexts).Draw(rt, "text")}
 	case 3, 4, 5, 6, 7:
-		m := Msg{Kind: "change_inc", URI: uri, Version: rapid.IntRange(2, 50).Draw(rt, "ver"), Text: rapid.SampledFrom([]string{"", "x", "é", "𝄞", "\n", "a\nb", " WHERE 1 ", " < 1 & 2 > 3 "}).Draw(rt, "ins")}
+		m := Msg{Kind: "change_inc", URI: uri, Version: rapid.IntRange(2, 50).Draw(rt, "ver"), Text: rapid.SampledFrom([]string{"", "x", "é", "𝄞", "\n", "a\nb", " WHERE 1 ", " < 1 & 2 > 3 ", "\r\n", "x\r\ny"}).Draw(rt, "ins")}
 		switch rapid.IntRange(0, 5).Draw(rt, "rangekind") {
 		case 0, 1, 2: // in range, ordered
 			m.SL, m.SC = rapid.IntRange(0, 3).Draw(rt, "sl"), rapid.IntRange(0, 8).Draw(rt, "sc")
@@ -442,8 +446,8 @@ func TestEditRangesExhaustive(t *testing.T) {
 	if hx.Shard() != 0 {
 		t.Skip("enumeration runs on shard 0 only")
 	}
-	hx.Rule("edit_ranges", "every (startLine, startChar, endLine, endChar) in [-1, L+1] x [-1, C+2] over three small documents containing an astral character, as one incremental didChange on a freshly opened document; same invariants as lsp_history; exhaustive")
-	docs := []string{"a𝄞b\ncd", "é\n\nxy𝄞", "SELECT 1"}
+	hx.Rule("edit_ranges", "every (startLine, startChar, endLine, endChar) in [-1, L+1] x [-1, C+2] over four small documents containing an astral character (one with CRLF line endings), as one incremental didChange on a freshly opened document; same invariants as lsp_history; exhaustive")
+	docs := []string{"a𝄞b\ncd", "é\n\nxy𝄞", "SELECT 1", "a𝄞\r\nb\r\n"}
 	n := 0
 	for di, doc := range docs {
 		lines := strings.Split(doc, "\n")
